@@ -245,33 +245,47 @@ def check(ctx):
         loops = [n for n in own_walk(eff.node) if isinstance(n, ast.While) and any(x is adv for x in ast.walk(n))]
         ids = {id(l) for l in loops}
         ck = {f"{v}._cancel_called", f"{v}.cancel_called"}
+        gone = {(v, False), (f"{v} is None", True)}
 
+        def cancelled(facts):
+            return any((k, True) in facts for k in ck)
+
+        # state: (this scope's deadline accumulated in the current iteration, the result has been forced to -inf)
         def step_e(st, e, c):
+            acc, neg = st
             if e == "head":
-                return False
+                return (False, neg)
             if c.is_exc:
                 return st
             if e == "min":
-                return True
-            if e == "ctest" and not st:
-                return Bad("a scope's own deadline is not taken into account before the walk looks at its cancelled/shield flags (a shielded scope's deadline would be ignored)")
+                return (True, neg)
+            if e == "neg":
+                if not cancelled(c.facts_before):
+                    return Bad("the effective deadline is forced to -inf without a cancelled scope on the chain")
+                return (acc, True)
+            if e == "advance" and not acc:
+                return Bad("the walk moves on to the parent without having taken this scope's own deadline into account")
+            if e == "ret_neg" and not cancelled(c.facts_before):
+                return Bad("-inf is returned without a cancelled scope on the chain")
+            if e == "ret_d":
+                if cancelled(c.facts_before) and not neg:
+                    return Bad("a cancelled scope was found but the accumulated deadline is returned instead of -inf")
+                if not acc and not neg and not (gone & set(c.facts_before)):
+                    return Bad("the walk ends at a scope (shield) whose own deadline was not taken into account (a shielded scope's deadline "
+                               "would be ignored)")
             return st
 
-        def is_ctest(frag, node):
-            return node.kind == "test" and atom(node.node)[0] in ck
-
         ctx.paths("R06-e", eff, [("head", [lambda frag, node: node.kind == "loop_head" and id(node.node) in ids]),
-                                 ("min", [f"{d} = min({d}, {v}.deadline)", f"{d} = min({v}.deadline, {d})"]), ("ctest", [is_ctest])],
-                  step_e, False, lambda k, s, f: None, instance="min() accumulation precedes the cancelled test")
-        neg = ctx.sites(eff, f"{d} = -math.inf")
-        if ctx.need("R06-e", eff, "`deadline = -math.inf` once cancelled", len(neg), 1):
-            fa = ctx.facts_at(eff, neg[0][0])
-            ok = bool(fa) and all(any(k in ck and p for k, p in x) for x in fa)
-            ctx.ob("R06-e", eff, "-inf exactly for a cancelled scope on the chain", ok, node=neg[0][0], by=("cancel_called",),
-                   detail="" if ok else "-inf assigned without a cancelled scope")
+                                 ("min", [f"{d} = min({d}, {v}.deadline)", f"{d} = min({v}.deadline, {d})"]),
+                                 ("neg", [f"{d} = -math.inf"]), ("advance", [f"{v} = {v}._parent_scope"]),
+                                 ("ret_neg", ["return -math.inf"]), ("ret_d", [f"return {d}"])],
+                  step_e, (False, False), lambda k, s, f: None,
+                  instance="every visited scope's deadline is accumulated before the walk leaves it; -inf exactly for a cancelled scope")
+        negs = ctx.sites(eff, f"{d} = -math.inf") + ctx.sites(eff, "return -math.inf")
+        ctx.need("R06-e", eff, "`-math.inf` once cancelled (assigned or returned)", len(negs), 1)
         rets = [n for n in own_walk(eff.node) if isinstance(n, ast.Return)]
         ok = any(r.value is not None and ast.unparse(r.value) == d for r in rets) and all(
-            r.value is not None and ast.unparse(r.value) in (d, "math.inf") for r in rets)
+            r.value is not None and ast.unparse(r.value) in (d, "math.inf", "-math.inf") for r in rets)
         ctx.ob("R06-e", eff, "the accumulated value is what is returned", ok, detail="" if ok else f"returns {[norm(r) for r in rets]}", by=(f"return {d}",))
         ini = ctx.sites(eff, f"{d} = math.inf")
         ctx.ob("R06-e", eff, "accumulation starts at +inf", len(ini) == 1, detail="" if ini else "not initialised to math.inf", by=(f"{d} = math.inf",))
